@@ -119,7 +119,7 @@ theorem forceH_gen_spec (hg : Total g gp) (fuel hc : Nat) (hp : Heap) (lg : Log)
   rw [LL.forceH]
   simp only [bind_apply, get_apply, hcell, modify_apply]
   rw [LL.runH]
-  · simp only [h', pure_apply]
+  · simp only [LL.onPanic, h', pure_apply]
   · exact fun h => absurd h (Nat.succ_ne_zero _)
 
 theorem forceT_gen_spec (fuel tc : Nat) (hp : Heap) (lg : Log) (i : Int)
@@ -132,7 +132,7 @@ theorem forceT_gen_spec (fuel tc : Nat) (hp : Heap) (lg : Log) (i : Int)
   rw [LL.forceT]
   simp only [bind_apply, get_apply, hcell, modify_apply]
   rw [LL.runT]
-  · simp [makeList]
+  · simp [makeList, LL.onPanic]
   · exact fun h => absurd h (Nat.succ_ne_zero _)
 
 theorem set_get_same {C : Type} (a : Array C) (c : Nat) (x : C) (h : c < a.size) : (a.set! c x)[c]? = some x := by
@@ -170,6 +170,7 @@ theorem gen_lsim (hg : Total g gp) : LSim 3 (fun hp l xs => ∃ i, GenR g gp xs 
     | nil => simp [GenR] at h
     | cons a t => simp [GenR] at h
     | seq ys => simp [GenR] at h
+    | nilIface => simp [GenR] at h
     | adaptor hc tc =>
       have hempty : (gp i).isNone = xs.isEmpty := by
         cases xs <;> simp only [GenR] at h
@@ -192,6 +193,7 @@ theorem gen_lsim (hg : Total g gp) : LSim 3 (fun hp l xs => ∃ i, GenR g gp xs 
     | nil => simp [GenR] at h
     | cons a t => simp [GenR] at h
     | seq ys => simp [GenR] at h
+    | nilIface => simp [GenR] at h
     | adaptor hc tc =>
       have hv : gp i = some x := by simp only [GenR] at h; exact h.2.1
       have hcell : hp.hs[hc]? = some (.pending (.gen i g), 0) ∨ hp.hs[hc]? = some (.done (gp i), 1) := by
@@ -211,6 +213,7 @@ theorem gen_lsim (hg : Total g gp) : LSim 3 (fun hp l xs => ∃ i, GenR g gp xs 
     | nil => simp [GenR] at h
     | cons a t => simp [GenR] at h
     | seq ys => simp [GenR] at h
+    | nilIface => simp [GenR] at h
     | adaptor hc tc =>
       simp only [GenR] at h
       obtain ⟨hhead, hv, htail⟩ := h
